@@ -87,7 +87,12 @@ class C10(HistoryProperty):
 
     def gen_case(self, rng, tier):
         cfg = gen.swarm_cfg(rng, off=("shape_change",))
-        spec = gen.prune(gen.gen_spec(rng, cfg))
+        spec = gen.gen_spec(rng, cfg)
+        # bare combinators are targets too: a memoising dataset around them computes keys() for its fingerprint
+        # during validate() and so hides a validate() that is weaker than keys()/evaluate()
+        inner = [n["id"] for n in spec["nodes"] if n["k"] in ("map", "coalesce", "switch", "case", "bind", "template", "apply", "withopts", "list", "opt")]
+        spec["roots"] = list(dict.fromkeys(spec["roots"] + rng.sample(inner, min(len(inner), rng.randint(0, 3)))))
+        spec = gen.prune(spec)
         ops = gen_history(rng, cfg, spec, n_ops=rng.randint(3, 12))
         # sub-dictionaries of the generated ones: options are added key by key
         for op in list(ops):
